@@ -184,8 +184,13 @@ def main():
             os.remove(f"{outdir}/result.json")
         except FileNotFoundError:
             pass
-        p = subprocess.run(cmd, cwd=HARNESS, stdout=subprocess.PIPE if not replay_in else None, stderr=subprocess.PIPE, text=True,
-                           timeout=meta.get("timeout", 3400))
+        try:
+            p = subprocess.run(cmd, cwd=HARNESS, stdout=subprocess.PIPE if not replay_in else None, stderr=subprocess.PIPE, text=True,
+                               timeout=meta.get("timeout", 3400))
+        except subprocess.TimeoutExpired as te:
+            # must not happen (the harness keeps to its own per-group budgets); if it does, say so instead of crashing
+            class P: returncode = -9; stderr = f"harness exceeded {te.timeout} s"
+            p = P()
         sys.stderr.write(p.stderr[-6000:])
         if os.path.exists(f"{outdir}/result.json"):
             result = json.load(open(f"{outdir}/result.json"))
@@ -280,7 +285,7 @@ def main():
         "oracle_failures": sum(len(g["oracle_failures"]) for g in groups),
         "rule": " | ".join(f"{g['group']}: {g['rule']}" for g in groups),
         "groups": [dict({k: g[k] for k in ("group", "evaluations", "compared_with_model", "distinct_nontrivial", "histogram", "max_line_len", "wall_s")},
-                        unreproduced_timing_failures=len(g.get("unreproduced_timing_failures", []))) for g in groups],
+                        unreproduced_timing_failures=len(g.get("unreproduced_timing_failures", [])), dropped_by_budget=g.get("dropped_by_budget", 0)) for g in groups],
         "samples": samples,
         "known_findings_listed": [k[1] for k in known],
         "fixed_findings": fixed,
